@@ -2,5 +2,6 @@ SPECIFICATION Spec
 CONSTANTS
   StationLegacySkip = 104
   StationRandMinVer = 4
+  ClientPortSource = "session"
 INVARIANTS Agreement
 CHECK_DEADLOCK FALSE
